@@ -256,7 +256,26 @@ func replay(s *schedule, seed int64, scratch string) (res result) {
 		kind := s.Kinds[x]
 		if kind == "" {
 			var cands []string
+			// a seek to a snapshot acknowledges whatever the snapshot does not hold: it would also
+			// retire the message another writer prepared on the same subscription (the schedule's
+			// premise "that writer's commit makes a message deliverable there" would be false)
+			shared := false
+			for y, ty := range s.Targets {
+				if y == x {
+					continue
+				}
+				for _, a := range ty {
+					for _, b := range targets {
+						if a == b {
+							shared = true
+						}
+					}
+				}
+			}
 			for _, k := range allKinds {
+				if k == "seeksnap" && shared {
+					continue
+				}
 				if compatible(k, append([]string{}, targets...), allSubs) {
 					cands = append(cands, k)
 				}
